@@ -5,7 +5,7 @@ OCAML = S.OCAML
 GO = S.GO
 FAMILIES = "mixed,startup,reload".split(",")
 PROP = "props/C04.v"
-PROOFS = ["proofs/SupInv.v"]
+PROOFS = ["proofs/SupInv.v", "proofs/SupTrig.v", "proofs/SupResult.v"]
 
 
 def run(run):
